@@ -365,7 +365,7 @@ class Check(object):
         # explode; that must end as a reported violation, not as a dead or endless process
         if os.environ.get("VERIF_WATCHDOG", "1") != "0":
             self.start_watchdog(rss_gb=float(os.environ.get("VERIF_WATCHDOG_RSS_GB", "10")),
-                                wall_s=float(os.environ.get("VERIF_WATCHDOG_WALL_S", "2400" if tier == "quick" else "21600")))
+                                wall_s=float(os.environ.get("VERIF_WATCHDOG_WALL_S", "2400" if tier == "quick" else "10800")))
 
     # -- bookkeeping -------------------------------------------------------
     def note(self, msg):
